@@ -167,8 +167,40 @@ def F14():
     return bool((x != keep).any()), 'x_traj argument after runsys: %s' % x[0, :, 0].tolist()
 
 
+def F15():
+    """PF: with many particles the estimate must approach the exact posterior mean of the documented particle model
+    (likelihood at the PROPAGATED particle).  Linear system, closed-form reference, 6-sigma Monte-Carlo band."""
+    torch.manual_seed(2024)
+    n, m, p, N = 3, 2, 2, 200000
+    A = 0.9 * torch.linalg.qr(torch.randn(n, n))[0]
+    B, C, D = torch.randn(n, p), torch.randn(m, n), torch.randn(m, p)
+    c1, c2 = torch.randn(n), torch.randn(m)
+    def spd(k, s):
+        M = torch.randn(k, k); return s * (M @ M.T + k * torch.eye(k)) / k
+    Q, P = spd(n, 0.01), spd(n, 0.5)
+    R = (C @ P @ C.T) * 2.0
+    x, u = torch.randn(n), torch.randn(p)
+    y = C @ (A @ (x + torch.linalg.cholesky(P) @ torch.randn(n)) + B @ u + c1) + D @ u + c2
+    class Lin(pp.module.NLS):
+        def state_transition(s, state, input, t=None): return pp.bmv(A, state) + pp.bmv(B, input) + c1
+        def observation(s, state, input, t=None): return pp.bmv(C, state) + pp.bmv(D, input) + c2
+    xe, Pe = pp.module.PF(Lin(), particles=N)(x, y, u, P, Q, R)
+    out = []
+    for post in (True, False):
+        P0 = n * P
+        H, off = (C @ A, C @ (B @ u + c1) + D @ u + c2) if post else (C, D @ u + c2)
+        S = H @ P0 @ H.T + R
+        K = P0 @ H.T @ torch.linalg.inv(S)
+        m0 = x + K @ (y - H @ x - off)
+        V0 = P0 - K @ S @ K.T
+        mean, V = A @ m0 + B @ u + c1, A @ V0 @ A.T
+        sigma = (V.diagonal() * (20.0 / N)).sqrt()      # generous: effective sample size >= 5% of N
+        out.append(((xe - mean).abs() / sigma).max().item())
+    return out[0] > 6.0, 'PF mean vs exact posterior: %.1f sigma (likelihood at propagated particle, documented), %.1f sigma (at prior particle)' % tuple(out)
+
+
 if __name__ == '__main__':
-    names = sys.argv[1:] or ['F%d' % i for i in range(1, 15)]
+    names = sys.argv[1:] or ['F%d' % i for i in range(1, 16)]
     for n in names:
         try:
             d, msg = globals()[n]()
